@@ -7,6 +7,7 @@ mod master;
 mod query;
 mod ser;
 mod settings;
+mod view;
 mod rd;
 
 use std::io::{BufRead, Write};
